@@ -26,6 +26,11 @@ Bounded-exhaustive check of `add_measures`, `tie_notes`, `find_tuplets`, `fill_r
   split-pieces             find_tie_split returns None or <= max_splits+1 contiguous pieces from start
                            to end whose symbolic durations evaluate to their lengths
 
+The spaces untied-* run find_tuplets on parts whose notes tie_notes has not split yet (find_tuplets alone
+on the bare part, or between add_measures and tie_notes), over every unit duration up to five quarters:
+untyped notes that have no single notated value (two to four tied values, longer than a bar) are then
+still present when tuplets are searched; the same clauses apply after every operation.
+
 Edit cases (spaces edit-requery*) run a first pass, then move one untyped note or change the divisions
 through the public API, then run a second pass with the same clauses evaluated against the edited
 part (symbolic durations that the edit itself invalidates - values stored by the first pass on objects
@@ -44,7 +49,8 @@ RULE = (
     "oracle evaluated after every operation; an estimator case is a (divisions, duration range) block, "
     "every duration one state; a split case is one (divisions, start) with every duration one state; "
     "non-trivial = a measure was added and a note was split or a rest was added / the estimate is "
-    "non-empty / a split was found; an edit case is a part case plus one edit (a note moved to another "
+    "non-empty / a split was found (untied-* spaces: find_tuplets met an untyped note without a plain or "
+    "dotted value); an edit case is a part case plus one edit (a note moved to another "
     "(onset, end), or other divisions) and a second operation sequence, the oracle again evaluated after "
     "every operation, non-trivial = the edit changes the notated value of a note"
 )
@@ -962,11 +968,11 @@ def spaces(tier, seed):
         "tie_notes, fill_rests, sanitize_part): divs %s, 4/4; runs of 3 or 5 equal contiguous untyped notes of EVERY unit duration from 1 "
         "division to 5 quarters (plain, dotted, tuplet values, values needing two to four tied values, values longer than a bar), closing "
         "note none / 1 division" % (UNTIED_ORDERS[:2], uq))
-    uqw = [1, 2, 3, 4, 5, 6, 7, 8, 12, 16, 24, 32, 48]
+    uqw = [1, 2, 3, 4, 5, 6, 8, 12, 16, 24, 32]
     add("untied-runs-wide",
-        lambda sh: gen_untied_runs(uqw, LAYOUTS[:2], (3, 4, 5, 7, 9), 6, (0, 1), (0, 1, 2), UNTIED_ORDERS, sh), 64,
-        "as untied-runs with divs %s, layouts 44 and 34-24, runs of 3, 4, 5, 7, 9 notes, every unit duration up to 6 quarters, offset 0 or 1 "
-        "division, closing note none / 1 division / unit+1 divisions, operation orders %s" % (uqw, UNTIED_ORDERS))
+        lambda sh: gen_untied_runs(uqw, LAYOUTS[:2], (3, 4, 5, 7, 9), 5, (0, 1), (0, 2), UNTIED_ORDERS, sh), 24,
+        "as untied-runs with divs %s, layouts 44 and 34-24, runs of 3, 4, 5, 7, 9 notes, every unit duration up to 5 quarters, offset 0 or 1 "
+        "division, closing note none / unit+1 divisions, operation orders %s" % (uqw, UNTIED_ORDERS))
     add("untied-words", lambda sh: gen_untied_words([4, 8, 16, 24], (3, 4, 5), 5, ["AUTRS"], sh), 8,
         "find_tuplets before tie_notes: divs {4,8,16,24}, 4/4; contiguous notes of one voice spelling every word of length 3..5 over "
         "{d, one quarter} (not all quarters) for every d from 1 division to 5 quarters; ops add_measures, find_tuplets, tie_notes, "
